@@ -104,12 +104,17 @@ class Env(object):
             b.pop(name, None)
 
     def fresh(self, prefix):
-        self.counter['n'] += 1
-        return '%s%d' % (prefix, self.counter['n'])
+        # per-prefix numbering: different bodies reuse the same names (i1, i2, s1 ...), which is what makes a
+        # callee that leaks into its caller's scope visible
+        k = 'n_' + prefix
+        self.counter[k] = self.counter.get(k, 0) + 1
+        return '%s%d' % (prefix, self.counter[k])
 
 
 class Gen(object):
-    def __init__(self, tape, max_stmts=12, max_depth=3, calls=None, params=None, self_cls=None, allow_return=True):
+    def __init__(self, tape, max_stmts=12, max_depth=3, calls=None, params=None, self_cls=None, allow_return=True,
+                 ret_ty='any'):
+        self.ret_ty = ret_ty          # 'any' (C04 top-level), None (void callable: bare returns) or an OAL type
         self.t = tape
         self.max_stmts = max_stmts
         self.max_depth = max_depth
@@ -459,11 +464,15 @@ class Gen(object):
         if k == 20 and self.allow_return and t.pick(3) == 0:
             self.features.add('return')
             form = t.pick(6)
-            if form == 0:
+            if self.ret_ty is None or (self.ret_ty == 'any' and form == 0):
                 r = N('ReturnNode', expression=None)
                 self.features.add('bare-return')
-            else:
+            elif self.ret_ty == 'any':
                 r = N('ReturnNode', expression=self.expr(env, t.choice(['int', 'str', 'bool', 'int'])))
+            else:
+                r = N('ReturnNode', expression=self.expr(env, self.ret_ty))
+            if in_loop:
+                self.features.add('return-in-loop')
             if t.flag():
                 return [N('IfNode', expression=self.expr(env, 'bool'), block=block([r]),
                           elif_list=N('ElIfListNode', children=[]), else_clause=None)]
